@@ -698,6 +698,15 @@ func (e *evaluator) evalCall(call *ast.CallExpr) *Term {
 			if !writesThroughPointer(ci) {
 				break
 			}
+			// a pointer (or an interface holding one) that is known to point at a caller's value, handed on to a
+			// decoder: the pointee is what the decoder leaves there
+			if id, ok := ast.Unparen(a).(*ast.Ident); ok && ci.fn == nil && ci.name != "dyn" {
+				if v, ok := info.Uses[id].(*types.Var); ok {
+					if cur := e.st.vars[v]; cur != nil && cur.Op == "&" && len(cur.A) == 1 {
+						e.st.vars[v] = mk("&", mk("out", result, atom(strconv.Itoa(i))).withType(cur.A[0].Typ)).withType(cur.Typ)
+					}
+				}
+			}
 			if u, ok := ast.Unparen(a).(*ast.UnaryExpr); ok && u.Op == token.AND {
 				if id, ok := u.X.(*ast.Ident); ok {
 					if v, ok := info.Uses[id].(*types.Var); ok && !isCtxType(v.Type()) {
@@ -910,10 +919,23 @@ func (e *evaluator) recvOut(call *ast.CallExpr, ci *callInfo, result *Term) {
 		return
 	}
 	v, ok := e.info().Uses[id].(*types.Var)
-	if !ok || namedStruct(v.Type()) == "" {
+	if !ok {
 		return
 	}
-	if _, isPtr := types.Unalias(v.Type()).(*types.Pointer); isPtr {
+	if vpt, isPtr := types.Unalias(v.Type()).(*types.Pointer); isPtr {
+		// the function's own pointer receiver / pointer-to-struct parameters are modelled as the struct they point at
+		own := e.f != nil && v == e.f.Recv
+		if e.f != nil {
+			for _, pr := range e.f.Params {
+				if pr == v {
+					own = true
+				}
+			}
+		}
+		if !own || namedStruct(vpt.Elem()) == "" {
+			return
+		}
+	} else if namedStruct(v.Type()) == "" {
 		return
 	}
 	if e.p.pathsBusy[ci.fn] {
@@ -939,9 +961,15 @@ func (e *evaluator) recvOut(call *ast.CallExpr, ci *callInfo, result *Term) {
 		nv := os.Subst(m)
 		nv.Typ = v.Type()
 		e.st.vars[v] = nv
+		if e.f != nil && v == e.f.Recv {
+			e.st.recvWritten = true
+		}
 		return
 	}
 	e.st.vars[v] = mk("out", result, atom("-1")).withType(v.Type())
+	if e.f != nil && v == e.f.Recv {
+		e.st.recvWritten = true
+	}
 }
 
 const prefixStorePkg = "github.com/cosmos/cosmos-sdk/store/prefix"
